@@ -348,9 +348,23 @@ func (e *Env) assumeShape(v Value) {
 	}
 }
 
+// maxElems is the largest possible number of elements of a slice with this element type
+// (gc runtime, 64-bit: maxAlloc = 2^48 bytes).
+func maxElems(elem types.Type) string {
+	sz := types.SizesFor("gc", "amd64").Sizeof(elem)
+	if sz <= 0 {
+		sz = 1
+	}
+	return fmt.Sprint((int64(1) << 48) / sz)
+}
+
 func (e *Env) sliceWF(x *Slice) string {
+	bound := "281474976710656"
+	if st, ok := x.Typ.Underlying().(*types.Slice); ok {
+		bound = maxElems(st.Elem())
+	}
 	return mkAnd(sx("<=", "0", x.Arr), sx("<=", "0", x.Off), sx("<=", "0", x.Len), sx("<=", x.Len, x.Cap),
-		sx("<=", x.Cap, "281474976710656"),
+		sx("<=", x.Cap, bound),
 		mkImp(mkEq(x.Arr, "0"), mkAnd(mkEq(x.Len, "0"), mkEq(x.Cap, "0"))))
 }
 
